@@ -635,15 +635,17 @@ def _models_check(rec, models, name, args, out):
         last = rec.pcalls[-1] if rec.pcalls else None
         ok = None
         if last is not None and last["ret"] is not None:
-            ok = (
-                np.array_equal(last["x"], np.asarray(x_new))
+            xn = np.asarray(x_new, float)
+            rnd = 8 * np.finfo(float).eps * np.maximum(np.abs(xn), np.abs(it.x_base))
+            ok = bool(
+                np.array_equal(last["x"], xn)
                 and last["ret"][0] == f
                 and np.array_equal(last["ret"][1], cub)
                 and np.array_equal(last["ret"][2], ceq)
                 and models.fun_val[k_new] == f
                 and np.array_equal(models.cub_val[k_new, :], cub)
                 and np.array_equal(models.ceq_val[k_new, :], ceq)
-                and np.array_equal(it.point(k_new), np.asarray(x_new))
+                and np.all(np.abs(it.point(k_new) - xn) <= rnd)
             )
         ent["stored_ok"] = ok
     rec.notes.setdefault("models", []).append(ent)
